@@ -23,7 +23,7 @@ import (
 	"github.com/flamego/flamego/verifharness/internal/rt"
 )
 
-const rule = "round = an application with 0..7 separately added middleware, routes of every kind (static via the shortcut, optional static, regex with user groups, placeholder, match-all with capture, header-constrained, named routes whose handlers build URLs, a middleware that maps a per-request token read from a header, handlers that receive it by type), built twice: instance A serves every distinct request alone (expected responses), instance B is fresh (nothing lazily cached yet) and is hit by 2..16 goroutines released together, each with its own list of 5..40 requests and runtime.Gosched() yields inside the handlers, under GOMAXPROCS in {2,4,16}. " +
+const rule = "round = an application with 0..7 separately added middleware, routes of every kind (static via the shortcut, optional static, regex with user groups, placeholder, match-all with capture, header-constrained, named routes whose handlers build URLs, a middleware that maps a per-request token read from a header, handlers that receive it by type and an application service through an interface it implements), built twice: instance A serves every distinct request alone (expected responses), instance B is fresh (nothing lazily cached yet) and is hit by 2..16 goroutines released together, each with its own list of 5..40 requests and runtime.Gosched() yields inside the handlers, under GOMAXPROCS in {2,4,16}. " +
 	"Oracle: (1) every concurrent response (status and body = route marker + echoed parameters + token + built URL) equals A's response for the same request; (2) the Go race detector reports nothing (binary built with -race, GORACE=halt_on_error=1; the driver turns a report into a violation). " +
 	"non-trivial = a round in which >= 2 goroutines start with the same dynamic named route (the first use of lazily cached state is contended) and >= 3 kinds of route are hit; distinct by round text"
 
@@ -56,9 +56,17 @@ type Round struct {
 
 type token struct{ v string }
 
+// namer is resolved through an implementor registered on the application at
+// set-up (the interface itself is never registered).
+type namer interface{ Name() string }
+type svc struct{ name string }
+
+func (s *svc) Name() string { return s.name }
+
 // build makes one application; both instances of a round are built by the same code.
 func build(r Round) *flamego.Flame {
 	f := flamego.NewWithLogger(io.Discard)
+	f.Map(&svc{"svc-A"})
 	for i := 0; i < r.Middleware; i++ {
 		f.Use(func(c flamego.Context) {}) // separate calls: the middleware slice may end up with spare capacity
 	}
@@ -72,7 +80,7 @@ func build(r Round) *flamego.Flame {
 	}
 	echo := func(marker, urlName string) []flamego.Handler {
 		pre := func(c flamego.Context) { yield() }
-		main := func(c flamego.Context, t *token) string {
+		main := func(c flamego.Context, t *token, n namer) string {
 			yield()
 			ps := c.Params()
 			keys := make([]string, 0, len(ps))
@@ -85,7 +93,7 @@ func build(r Round) *flamego.Flame {
 			for _, k := range keys {
 				fmt.Fprintf(&b, "|%s=%s", k, ps[k])
 			}
-			b.WriteString("|token=" + t.v)
+			b.WriteString("|token=" + t.v + "|svc=" + n.Name())
 			if urlName != "" {
 				var pairs []string
 				for _, k := range keys {
